@@ -369,13 +369,17 @@ def rule_mx7(ctx: Ctx) -> RuleResult:
     spec = specs[0]
     branch = next(iter(spec.bound.values()))
     r.instances += 1
-    # n must be the number of branches
-    m = site.module
-    n_ok = False
-    for node in ast.walk(site.subscribe_fn):
-        if isinstance(node, ast.Assign) and len(node.targets) == 1 and isinstance(node.targets[0], ast.Name) \
-                and node.targets[0].id == "n":
-            n_ok = ast.unparse(node.value) == "len(sources)"
+    from .tee import tee_model
+    from .linear import linform
+    tm = tee_model(ctx, site)
+
+    def last_branch(t):
+        """t == (number of branches) - 1"""
+        f = linform(t)
+        if f is None or f[1] != -1 or len(f[0]) != 1:
+            return False
+        (atom, co), = f[0].items()
+        return co == 1 and tm.is_count(atom)
     for kind, cfg, paths in ctx.all_paths(spec):
         for p in paths:
             r.paths += 1
@@ -396,8 +400,7 @@ def rule_mx7(ctx: Ctx) -> RuleResult:
                         if kind == "Create":
                             good = good or other_side == ("const", 0)
                         else:
-                            good = good or (other_side[0] == "binop" and other_side[1] == "Sub" and other_side[2][0] == "free"
-                                            and other_side[2][1] == "n" and other_side[3] == ("const", 1) and n_ok)
+                            good = good or last_branch(other_side)
                     want = "the first branch (index 0)" if kind == "Create" else "the last branch (index n-1, n = len(sources))"
                     r.ob(good and len(fw) == 1, lambda: mk_finding(
                         "MX-7", spec, kind, cfg, p,
@@ -437,6 +440,10 @@ def rule_mx8(ctx: Ctx) -> RuleResult:
                 r.instances += 1
                 if h.how == "forward":
                     ok = h.target == ("obs", "down") and h.method == which
+                    if not ok and cls == "sources" and h.method == which:
+                        # with_store on several sources keeps each subscriber's observer in its Source record
+                        t = h.target
+                        ok = (t[0] == "opaque" and t[1].endswith(".observer")) or (t[0] == "attr" and t[2] == "observer")
                     r.ob(ok, lambda: Finding("MX-8", "%s{%s-forward}" % (site.name, which), site.module.where(h.node),
                                              "%s is wired to %s.%s instead of the downstream observer's %s" % (which, show(h.target), h.method, which)))
                 elif h.how == "fn":
